@@ -142,6 +142,7 @@ func (fc *FnCtx) declContains() {
 	fc.vc.declUF("errContains", []Sort{SInt, SInt, SInt, SInt}, SBool)
 	// every non-nil error contains itself
 	fc.vc.assert("(forall ((t Int) (v Int)) (=> (not (= t 0)) (errContains t v t v)))")
+	fc.vc.assert("(forall ((v Int) (xt Int) (xv Int)) (not (errContains 0 v xt xv)))")
 	tags := []int{fc.e.tagOfName("*errors.errorString")}
 	for _, X := range fc.e.errorTypes() {
 		tags = append(tags, fc.e.tagOf(X))
